@@ -192,11 +192,14 @@ func runC07(r *run) {
 		var ctx context.Context = context.Background()
 		var fromCtx []kvp
 		nCtxKeys := 0
-		if g.chance(1, 2) {
+		if g.chance(1, 2) || i < 4 {
 			var keys []any
 			for j := 1 + g.intn(3); j > 0; j-- {
 				name := g.pick(keyPool)
 				present := g.chance(2, 3)
+				if i < 4 {
+					name, present = fmt.Sprintf("ctxonly%d", j), true // not overridden by any call-site key
+				}
 				v := next()
 				switch g.intn(3) {
 				case 0:
@@ -251,13 +254,18 @@ func runC07(r *run) {
 				}
 			}
 		}
-		nilCtx := g.chance(1, 10)
+		nilCtx := g.chance(1, 10) && i >= 4
 		// call-site arguments
 		na := g.intn(20)
 		if g.chance(1, 2) {
 			na = 9 + g.intn(8)
 		} else if g.chance(1, 8) {
 			na = 30 + g.intn(35)
+		}
+		if i < 4 {
+			// the very first records of the process are large ones with context values: whatever is
+			// recycled between records has never carried that many attributes before
+			na = 100 + 20*i + g.intn(20)
 		}
 		var args []kvp
 		var callArgs []any
@@ -354,6 +362,77 @@ func runC07(r *run) {
 		}
 		if i < 5 {
 			r.sample(map[string]any{"chain": fmt.Sprint(chain), "ctx": fmt.Sprint(fromCtx), "args": fmt.Sprint(args), "inherit": inherit, "emitted": fmt.Sprint(got)})
+		}
+	}
+	// groups built from free-form arguments (slog.Group): inside a group too the last occurrence of a
+	// key wins and the members come out in ascending key order — also for large groups
+	ng := 150
+	if r.tier == "thorough" {
+		ng = 3000
+	}
+	for i := 0; i < ng; i++ {
+		slog.SetFlags(baseFlags)
+		rec := &recorder{}
+		format := []string{"logfmt", "json", "color"}[g.intn(3)]
+		l := slog.New(fmt.Sprintf("c07g-%d", i)).SetWriter(rec).SetErrorWriter(rec).SetLevel(slog.InfoLevel)
+		switch format {
+		case "json":
+			l.SetJSONMode(true)
+		case "logfmt":
+			l.SetColorMode(false)
+		default:
+			l.SetColorMode(true)
+		}
+		np := 1 + g.intn(20)
+		keyPool := c07Keys[:2+g.intn(len(c07Keys)-2)]
+		var pairs []kvp
+		var gargs []any
+		for j := 0; j < np; j++ {
+			a := kvp{g.pick(keyPool), next()}
+			pairs = append(pairs, a)
+			gargs = append(gargs, a.k, a.v)
+		}
+		l.Info("group-probe", slog.Group("grp", gargs...))
+		w := rec.take()
+		last := map[string]int{}
+		for _, a := range pairs {
+			last[a.k] = a.v
+		}
+		var keys []string
+		for k := range last {
+			keys = append(keys, k)
+		}
+		sort.Strings(keys)
+		var want []string
+		for _, k := range keys {
+			want = append(want, fmt.Sprintf("%s=%d", k, last[k]))
+		}
+		var got []string
+		if len(w) == 1 {
+			text := string(reAnsi.ReplaceAll(w[0], nil))
+			if format == "json" {
+				var obj map[string]any
+				if json.Unmarshal(w[0], &obj) == nil {
+					if m, ok := obj["grp"].(map[string]any); ok {
+						// member order as written
+						body := text[strings.Index(text, `"grp":{`)+7:]
+						for _, mm := range regexp.MustCompile(`"([^"]+)":(\d+)`).FindAllStringSubmatch(body[:strings.Index(body, "}")], -1) {
+							got = append(got, mm[1]+"="+mm[2])
+						}
+						_ = m
+					}
+				}
+			} else {
+				for _, mm := range regexp.MustCompile(`grp\.([^= ]+)=(\d+)`).FindAllStringSubmatch(text, -1) {
+					got = append(got, mm[1]+"="+mm[2])
+				}
+			}
+		}
+		r.seen(fmt.Sprintf("group|%s|%d|%v", format, np/4, len(pairs) != len(last)))
+		if fmt.Sprint(got) != fmt.Sprint(want) {
+			r.violate(violation{What: "the members of a group differ from the reference (last occurrence wins, ascending key order)",
+				Input:    map[string]any{"format": format, "group_pairs": fmt.Sprint(pairs)},
+				Expected: fmt.Sprint(want), Actual: fmt.Sprint(got)})
 		}
 	}
 	slog.VerifResetGlobals()
